@@ -79,6 +79,7 @@ type EngCfg struct {
 }
 
 type Eng struct {
+	scopeStrategy string // "", wildcard, hierarchic, exact (drawn for C09)
 	t       *rapid.T
 	cfg     EngCfg
 	w       *h.World
@@ -139,7 +140,12 @@ func NewEng(t *rapid.T, cfg EngCfg) *Eng {
 	}
 	fositeSession := rapid.Bool().Draw(t, "fositeSessionType")
 	legacyRevoker := cfg.Prop == "C08" && rapid.IntRange(0, 2).Draw(t, "legacyRevocationHandlerFirst") == 0
-	e.w = h.NewWorld(h.Spec{Store: store, JWTAccess: jwt, FositeSession: fositeSession, LegacyRevocationHandler: legacyRevoker, RefreshScopes: refreshScopeSets[e.rsMode], Mutate: func(c *fosite.Config) {
+	if cfg.Prop == "C09" {
+		// "covered ... under the configured scope strategy": the engine's scope names are plain words, which every
+		// strategy treats alike when granting; the strategies differ for the dotted names a caller may require
+		e.scopeStrategy = rapid.SampledFrom([]string{"wildcard", "wildcard", "hierarchic", "hierarchic", "exact"}).Draw(t, "scopeStrategy")
+	}
+	e.w = h.NewWorld(h.Spec{Store: store, JWTAccess: jwt, FositeSession: fositeSession, LegacyRevocationHandler: legacyRevoker, ScopeStrategy: e.scopeStrategy, RefreshScopes: refreshScopeSets[e.rsMode], Mutate: func(c *fosite.Config) {
 		c.AuthorizeCodeLifespan = e.codeLife
 		c.AccessTokenLifespan = e.atLife
 		c.RefreshTokenLifespan = e.rtLife
